@@ -41,7 +41,8 @@ prop('C05', prefix=['c05'],
             'A3 = C3 / C3 = A3), a reader of a cycle (C2 = A2), a formula off every cycle (A4); Model::evaluate run from its MIR, a second pass, then A1 '
             'replaced by another finite f64 and A4 by =A1+A1 and evaluated again; values read with get_cell_value_by_index; two readers with the same formula, one placed '
             'before and one after the cell they read (B1 = =C1 with C1 a number / boolean / empty / text / error; an overflowing product; a dynamic array blocked by user '
-            'content): both readers agree with each other and with what the read cell shows',
+            'content): both readers agree with each other and with what the read cell shows; two layouts in which a formula reads a cell filled by a dynamic array and is itself demanded '
+            'by an earlier dynamic array (first pass, second pass, and after the input behind the spill changes)',
      outside='longer chains and cycles, ranges, names, spills and dynamic arrays (two-phase evaluation), cross-sheet dependencies, functions, '
              'the converse "shows #CIRC! only if on a cycle" beyond these cells')
 prop('C06', prefix=['c06'],
